@@ -19,7 +19,12 @@ class _CannotBeRenderedError(Exception):
 
 
 def get_literal_expr(obj: object) -> Optional[str]:
-    if type(obj) in (int, str, bytes, bytearray):
+    if type(obj) is int:
+        try:
+            return repr(obj)
+        except ValueError:  # exceeds the limit for integer string conversion, the compiler would refuse such literal too
+            return None
+    if type(obj) in (str, bytes, bytearray):
         return repr(obj)
     if type(obj) is float:
         if math.isinf(obj) or math.isnan(obj):
@@ -36,7 +41,7 @@ def get_literal_expr(obj: object) -> Optional[str]:
 
     try:
         return _get_complex_literal_expr(obj)
-    except _CannotBeRenderedError:
+    except (_CannotBeRenderedError, RecursionError):  # RecursionError: self-referential or very deep container
         return None
 
 
